@@ -71,7 +71,7 @@ def extra_evidence():
 def config(tier):
     if tier == 'quick':
         return dict(shards=8, examples=700, numba_threads=1, boundscheck=[False, True], shrink_calls=150)
-    return dict(shards=16, examples=5000, numba_threads=1, boundscheck=[False, False, False, True], shrink_calls=400)
+    return dict(shards=16, examples=3000, numba_threads=1, boundscheck=[False, False, False, True], shrink_calls=400)
 
 
 # --------------------------------------------------------------------------- exhaustive
@@ -134,7 +134,7 @@ _box = st.one_of(
     st.floats(1e-3, 1e5, allow_nan=False, allow_infinity=False),
     st.integers(1, 10000).map(float),
 )
-_boxkind = st.sampled_from(['float', 'float', 'int', 'f32', 'f64'])
+_boxkind = st.sampled_from(['float', 'float', 'float', 'float', 'int', 'int', 'f32', 'f64'])
 _dtype = st.sampled_from(['float32', 'float64'])
 _outmode = st.sampled_from(['none', 'none', 'false', 'arr', 'flat'])
 _w32 = st.one_of(st.sampled_from(_W32_SPECIAL), st.integers(-(2**31), 2**31 - 1), st.integers(-(2**31), -1))
